@@ -159,6 +159,13 @@ theorem C06_no_vector {σ : Type} (ρ : Oracle σ) (fuel mi : Nat) (ev : Event) 
     transition ρ (fuel + 1) mi ev s = (s.push (.trans mi ev.toNat r.currentState), false) := by
   simp [transition, h1, h2, h3, h4, h5]
 
+/-- non-vacuity: `[Trans(1, 0.5), Trans(END, 0.25)]` is a validated vector; its closed form is
+    half of the outcomes for state 1, a quarter for END and a quarter for no transition -/
+example : C12.VecWF 2 [⟨1, 0x3f000000⟩, ⟨STATE_END, 0x3e800000⟩] ∧
+    closedForm [⟨1, 0x3f000000⟩, ⟨STATE_END, 0x3e800000⟩] =
+      ([(1, 4194304), (STATE_END, 2097152)], 2097152) := by
+  refine ⟨by rw [← C12.vecWfB_iff]; decide +kernel, by decide +kernel⟩
+
 /-! ### the draw itself: `gen_range(0.0..1.0)` on f32 takes exactly the values `k/2^23` -/
 
 theorem rep_unit (k : Nat) (hk : k < 2 ^ 23) : Rep 24 (-149) ((k : ℚ) / ((2 ^ 23 : Nat) : ℚ)) := by
